@@ -1,12 +1,30 @@
-// c15_embed.cpp — property C15, thorough tier: whole methods (public API tapkee::embed) under different
-// thread counts / schedules.  The embedding E (N x d) is compared through its Gram matrix E E^T, which
-// does not depend on the sign of an eigenvector nor on the rotation inside a multiple eigenvalue.
+// c15_embed.cpp — property C15: whole methods (public API tapkee::embed) under different thread counts /
+// schedules, with a FIXED random stream (std::srand + hook H1 tapkee::verif_shuffle_reseed before every call).
+// Used (a) by the always-on confirmation runs of the thorough tier and (b) by the search phase for OpenMP
+// regions that appear in code the region table does not know: the check maps the header of the region to the
+// public methods that include it and runs THEM here, at problem sizes on both sides of any `if (...)` clause.
+//
+// Observables per (case, combination):
+//   * the embedding E (N x d).  Compared with the first combination (1 thread) (i) entrywise (methods without a
+//     sign / rotation freedom: t-SNE, SPE, ...) and (ii) through its Gram matrix E E^T (free of the sign of an
+//     eigenvector and of the rotation inside a multiple eigenvalue); the Gram matrix is never formed: entries
+//     are recomputed pairwise (N up to 4000);
+//   * the lines "Iteration <i>: error is <C>" the library logs (t-SNE): <C> is printed by fmt's shortest
+//     round-trip format, so it is compared exactly.  Option stop=<i>: the harness' logger throws when the
+//     message of iteration >= i arrives, which ends TSNE::run (its iteration count is a local constant, 1000):
+//     "few iterations" through the public API; the observable is then the logged error only.
 // Build flag -D'nowait=schedule(runtime) nowait' as for harness/c15.cpp.
 //
-// input:  COMBOS t:k:c ...      then    CASE <id> <method> <N> <D> <k> <d> <seed>
-//         method: isomap lisomap mds lmds dm klle kltsa hlle
-// output: "C <id>", per combination "R <id> <t> <k> <c> <rows> <cols> <maxabsdiff %a> <maxabsref %a> <nonfinite>"
-//         or "R <id> <t> <k> <c> EXC <what>", then "E <id>".
+// input:  COMBOS t:k:c ...      then    CASE <id> <method> <N> <D> <k> <d> <seed> [key=value ...]
+//         method: isomap lisomap mds lmds dm klle kltsa hlle npe lltsa la lpp spe kpca pca ra fa tsne ms pt
+//         keys:   eig=dense|randomized|arpack  nm=brute|vptree|covertree  ratio=<double>  theta=<double>
+//                 perp=<double>  stop=<int>  width=<double>  steps=<int>  maxit=<int>
+// output: "C <id>", per combination
+//           "R <id> <t> <k> <c> <rows> <cols> <maxabsdiff-gram %a> <maxabsref-gram %a> <nonfinite> <maxabsdiff-entry %a>
+//              <maxabs-entry %a> <hash of E>"
+//           or "R <id> <t> <k> <c> EXC <what>"  or  "R <id> <t> <k> <c> STOP <iterations logged>"
+//           and "L <id> <t> <k> <c> <iteration> <error %a>" per logged t-SNE progress line,
+//         then "E <id>".
 #include <cmath>
 #include <cstdio>
 #include <cstdlib>
@@ -36,22 +54,82 @@ static uint64_t lcg(uint64_t& s)
     return s >> 33;
 }
 
+static uint64_t fnv(const double* p, size_t n)
+{
+    uint64_t h = 1469598103934665603ULL;
+    const unsigned char* b = (const unsigned char*)p;
+    for (size_t i = 0; i < n * sizeof(double); i++)
+    {
+        h ^= b[i];
+        h *= 1099511628211ULL;
+    }
+    return h;
+}
+
 static const DimensionReductionMethod* method_by_name(const std::string& s)
 {
     static const std::map<std::string, const DimensionReductionMethod*> tbl = {
-        {"klle", &KernelLocallyLinearEmbedding}, {"kltsa", &KernelLocalTangentSpaceAlignment},
-        {"hlle", &HessianLocallyLinearEmbedding}, {"dm", &DiffusionMap},
-        {"isomap", &Isomap},                     {"lisomap", &LandmarkIsomap},
-        {"mds", &MultidimensionalScaling},       {"lmds", &LandmarkMultidimensionalScaling},
+        {"klle", &KernelLocallyLinearEmbedding},
+        {"kltsa", &KernelLocalTangentSpaceAlignment},
+        {"hlle", &HessianLocallyLinearEmbedding},
+        {"dm", &DiffusionMap},
+        {"isomap", &Isomap},
+        {"lisomap", &LandmarkIsomap},
+        {"mds", &MultidimensionalScaling},
+        {"lmds", &LandmarkMultidimensionalScaling},
+        {"npe", &NeighborhoodPreservingEmbedding},
+        {"lltsa", &LinearLocalTangentSpaceAlignment},
+        {"la", &LaplacianEigenmaps},
+        {"lpp", &LocalityPreservingProjections},
+        {"spe", &StochasticProximityEmbedding},
+        {"kpca", &KernelPrincipalComponentAnalysis},
+        {"pca", &PrincipalComponentAnalysis},
+        {"ra", &RandomProjection},
+        {"fa", &FactorAnalysis},
+        {"tsne", &tDistributedStochasticNeighborEmbedding},
+        {"ms", &ManifoldSculpting},
+        {"pt", &PassThru},
     };
     auto it = tbl.find(s);
     return it == tbl.end() ? nullptr : it->second;
 }
 
+// thrown by the logger to end TSNE::run early (not derived from std::exception on purpose: nothing in the
+// library catches it)
+struct stop_request
+{
+    int iteration;
+};
+
+struct CaptureLogger : public LoggerImplementation
+{
+    std::vector<std::pair<long, double>> lines;
+    long stop_at = -1;
+    virtual void message_info(const std::string& msg)
+    {
+        if (msg.rfind("Iteration ", 0) != 0) return;
+        long it = 0;
+        double c = 0;
+        char buf[64];
+        if (sscanf(msg.c_str(), "Iteration %ld: error is %63s", &it, buf) == 2)
+        {
+            c = strtod(buf, nullptr);
+            lines.push_back({it, c});
+            if (stop_at >= 0 && it >= stop_at) throw stop_request{(int)it};
+        }
+    }
+    virtual void message_warning(const std::string&) {}
+    virtual void message_debug(const std::string&) {}
+    virtual void message_error(const std::string&) {}
+    virtual void message_benchmark(const std::string&) {}
+};
+
 int main()
 {
     setvbuf(stdout, nullptr, _IOLBF, 0);
-    Logging::instance().disable_info();
+    CaptureLogger* logger = new CaptureLogger;
+    Logging::instance().set_logger_impl(logger);      // owned by the singleton from here on
+    Logging::instance().enable_info();
     Logging::instance().disable_warning();
     Logging::instance().disable_error();
     Logging::instance().disable_benchmark();
@@ -85,9 +163,26 @@ int main()
         int N, D, k, d;
         unsigned long long seed;
         if (!(is >> id >> mname >> N >> D >> k >> d >> seed)) continue;
+        std::map<std::string, std::string> opt;
+        {
+            std::string kv;
+            while (is >> kv)
+            {
+                size_t e = kv.find('=');
+                if (e != std::string::npos) opt[kv.substr(0, e)] = kv.substr(e + 1);
+            }
+        }
+        auto optd = [&](const char* key, double dflt) {
+            auto it = opt.find(key);
+            return it == opt.end() ? dflt : atof(it->second.c_str());
+        };
+        auto opts = [&](const char* key, const char* dflt) {
+            auto it = opt.find(key);
+            return it == opt.end() ? std::string(dflt) : it->second;
+        };
         printf("C %ld\n", id);
         const DimensionReductionMethod* m = method_by_name(mname);
-        if (!m || N < 4 || N > 2000 || D < 1 || D > 20 || k < 1 || k >= N || d < 1 || d > 5)
+        if (!m || N < 4 || N > 4000 || D < 1 || D > 20 || k < 1 || k >= N || d < 1 || d > 5)
         {
             printf("BAD %ld\nE %ld\n", id, id);
             continue;
@@ -107,7 +202,8 @@ int main()
         eigen_kernel_callback kcb(X);
         eigen_distance_callback dcb(X);
         eigen_features_callback fcb(X);
-        DenseMatrix Gref;
+        const std::string eig = opts("eig", "dense"), nm = opts("nm", "brute");
+        DenseMatrix Eref;
         for (size_t ci = 0; ci < combos.size(); ci++)
         {
             const Combo& c = combos[ci];
@@ -117,39 +213,35 @@ int main()
             ps.add(method = *m);
             ps.add(target_dimension = (IndexType)d);
             ps.add(num_neighbors = (IndexType)k);
-            ps.add(neighbors_method = Brute);
-            ps.add(eigen_method = Dense);
-            ps.add(landmark_ratio = 0.5);
-            ps.add(gaussian_kernel_width = 2.0);
-            ps.add(diffusion_map_timesteps = (IndexType)2);
+            ps.add(neighbors_method = (nm == "vptree" ? VpTree : nm == "covertree" ? CoverTree : Brute));
+            ps.add(eigen_method = (eig == "randomized" ? Randomized :
+#ifdef TAPKEE_WITH_ARPACK
+                                   eig == "arpack" ? Arpack :
+#endif
+                                                   Dense));
+            ps.add(landmark_ratio = optd("ratio", 0.5));
+            ps.add(gaussian_kernel_width = optd("width", 2.0));
+            ps.add(diffusion_map_timesteps = (IndexType)optd("steps", 2));
+            ps.add(max_iteration = (IndexType)optd("maxit", 20));
+            ps.add(sne_theta = optd("theta", 0.5));
+            ps.add(sne_perplexity = optd("perp", std::min(30.0, std::floor((N - 1) / 3.0))));
+            logger->lines.clear();
+            logger->stop_at = (long)optd("stop", -1);
             srand((unsigned)seed);
 #ifdef TAPKEE_VERIF_SHUFFLE_HOOK
             tapkee::verif_shuffle_reseed((unsigned)seed);
 #endif
+            bool have = false;
+            DenseMatrix E;
             try
             {
                 TapkeeOutput out = embed(idx.begin(), idx.end(), kcb, dcb, fcb, ps);
-                const DenseMatrix& E = out.embedding;
-                DenseMatrix G = E * E.transpose();
-                if (ci == 0) Gref = G;
-                double maxd = 0, maxr = 0;
-                long nonfinite = 0;
-                if (G.rows() != Gref.rows() || G.cols() != Gref.cols())
-                    maxd = std::numeric_limits<double>::infinity();
-                else
-                    for (int i = 0; i < G.rows(); i++)
-                        for (int j = 0; j < G.cols(); j++)
-                        {
-                            if (!std::isfinite(G(i, j)) || !std::isfinite(Gref(i, j)))
-                            {
-                                nonfinite++;
-                                continue;
-                            }
-                            maxd = std::max(maxd, std::fabs(G(i, j) - Gref(i, j)));
-                            maxr = std::max(maxr, std::fabs(Gref(i, j)));
-                        }
-                printf("R %ld %d %d %d %ld %ld %a %a %ld\n", id, c.t, c.k, c.c, (long)E.rows(), (long)E.cols(), maxd, maxr,
-                       nonfinite);
+                E = out.embedding;
+                have = true;
+            }
+            catch (const stop_request& sr)
+            {
+                printf("R %ld %d %d %d STOP %zu\n", id, c.t, c.k, c.c, logger->lines.size());
             }
             catch (const std::exception& e)
             {
@@ -158,6 +250,45 @@ int main()
                     if (ch == '\n' || ch == ' ') ch = '_';
                 printf("R %ld %d %d %d EXC %s\n", id, c.t, c.k, c.c, w.c_str());
             }
+            for (auto& l : logger->lines) printf("L %ld %d %d %d %ld %a\n", id, c.t, c.k, c.c, l.first, l.second);
+            if (!have) continue;
+            if (ci == 0 || Eref.size() == 0) Eref = E;
+            double maxd = 0, maxr = 0, maxe = 0, maxa = 0;
+            long nonfinite = 0;
+            if (E.rows() != Eref.rows() || E.cols() != Eref.cols())
+                maxd = maxe = std::numeric_limits<double>::infinity();
+            else
+            {
+                for (int i = 0; i < E.rows(); i++)
+                    for (int j = 0; j < E.cols(); j++)
+                    {
+                        if (!std::isfinite(E(i, j)) || !std::isfinite(Eref(i, j)))
+                        {
+                            nonfinite++;
+                            continue;
+                        }
+                        maxe = std::max(maxe, std::fabs(E(i, j) - Eref(i, j)));
+                        maxa = std::max(maxa, std::fabs(Eref(i, j)));
+                    }
+                if (nonfinite == 0)
+                {
+                    const int n = (int)E.rows(), dd = (int)E.cols();
+                    for (int i = 0; i < n; i++)
+                        for (int j = i; j < n; j++)
+                        {
+                            double g = 0, gr = 0;
+                            for (int q = 0; q < dd; q++)
+                            {
+                                g += E(i, q) * E(j, q);
+                                gr += Eref(i, q) * Eref(j, q);
+                            }
+                            maxd = std::max(maxd, std::fabs(g - gr));
+                            maxr = std::max(maxr, std::fabs(gr));
+                        }
+                }
+            }
+            printf("R %ld %d %d %d %ld %ld %a %a %ld %a %a %016llx\n", id, c.t, c.k, c.c, (long)E.rows(), (long)E.cols(), maxd,
+                   maxr, nonfinite, maxe, maxa, (unsigned long long)fnv(E.data(), (size_t)E.size()));
         }
         printf("E %ld\n", id);
         fflush(stdout);
